@@ -443,6 +443,8 @@ class union_generator(_composite_generator_base):
         if duplicates:
             raise ProphyError("discriminators overlap in '{}' union, duplicates: {}".format(cls.__name__, duplicates))
         for field in cls._descriptor:
+            if not isinstance(field.discriminator, (int, long)):
+                raise ProphyError("discriminator of {}.{} is not an integer".format(cls.__name__, field.name))
             if not 0 <= field.discriminator <= u32._MAX:
                 msg = "discriminator of {}.{} out of 32-bit unsigned range"
                 raise ProphyError(msg.format(cls.__name__, field.name))
@@ -472,7 +474,12 @@ class union_generator(_composite_generator_base):
 
         def setter(self, discriminator_name_or_value):
             for field in self._descriptor:
-                if discriminator_name_or_value in (field.name, field.discriminator):
+                if isinstance(discriminator_name_or_value, (int, long)):
+                    chosen = discriminator_name_or_value == field.discriminator
+                else:
+                    """ a float, Fraction or Decimal that compares equal to a discriminator is not one """
+                    chosen = isinstance(discriminator_name_or_value, type(field.name)) and discriminator_name_or_value == field.name
+                if chosen:
                     if field is not self._discriminated:
                         self._discriminated = field
                         self._fields = {}
